@@ -372,11 +372,12 @@ func init() {
 		section{"octets", tiered(8, 8), c03Octets},
 		section{"spellings", tiered(19, 19), c03Spellings},
 		section{"random", tiered(2000, 60000), c03Random},
+		concurrentSection("C03"),
 	)
 	core.Register(&core.Monitor{
 		ID: "C03", Level: "exploration", Plan: plan, Run: run,
 		Rule: "exhaustive sub-spaces (wire length 240..260 x first label 1,2,31,60..66 x tail sizes x 3 fills; 256 octets x 4 positions x 6 neighbours; \\c for all c, \\DDD 000..999, backslash runs 1..6) plus seeded random names/texts; " +
-			"oracle = independent RFC 1035 name model (validity, canonical presentation, presentation parser); every name also packed with compression right after its own parent (pointer path: same verdict, octets decode to the same labels); non-trivial = distinct valid wire name or FQDN-shaped text",
+			"oracle = independent RFC 1035 name model (validity, canonical presentation, presentation parser); every name also packed with compression right after its own parent (pointer path: same verdict, octets decode to the same labels); the same operations called from 8 goroutines at once give the results they give alone; non-trivial = distinct valid wire name or FQDN-shaped text",
 		Assumptions: []string{"the library's presentation form is: . SP ' @ ; ( ) \" \\ backslash-escaped, <0x21/>0x7E as \\DDD", "\\DDD above 255 is outside the presentation form (no-panic only)"},
 		MinObserved: []string{"shapes", "octet_positions"},
 	})
